@@ -34,7 +34,7 @@ Definition ChkShip (t : text) (ts : list text) (c : cat) : bool :=
   list_eqb text_eqb (lex specials t) ts && match parse_toks puncts ts with Some c' => cat_eqb c' c | None => false end.
 '''
 
-WORDS = ['a', 'the', 'Dog', 'runs', ',', 'ü', '猫', 'x y', 'A', '']
+WORDS = ['a', 'the', 'Dog', 'runs', ',', 'ü', '猫', 'x y', 'A', '', '(', ')', '-LRB-', '[', '-RSB-']
 ABSENT = ['zebra', 'The', 'dog', '.']
 ERR = {IndexError: 'EIndex', RuntimeError: 'ERuntime', KeyError: 'EKey'}
 
@@ -86,6 +86,9 @@ def mk_arrays(rng, n, ntags, tag_shape=None, dep_shape=None):
     return tag, dep
 
 
+# spellings that other parts of depccg identify (PTB bracket escapes): for the dictionary they are different words
+ESCAPES = {'(': '-LRB-', ')': '-RRB-', '{': '-LCB-', '}': '-RCB-', '[': '-LSB-', ']': '-RSB-',
+           '-LRB-': '(', '-RRB-': ')', '-LCB-': '{', '-RCB-': '}', '-LSB-': '[', '-RSB-': ']'}
 LAYOUTS = ['C', 'C', 'F', 'colslice', 'rowslice', 'reversed']
 
 
@@ -279,7 +282,7 @@ def run(ctx):
                 for j_ in range(len(s_)):
                     if s_[j_] not in cd and rng.random() < 0.6:
                         k_ = rng.choice(keys)
-                        v_ = rng.choice([k_ + 's', k_ + '10', k_ + k_, k_[:-1], k_.upper(), k_ + ' ', 'x' + k_])
+                        v_ = rng.choice([k_ + 's', k_ + '10', k_ + k_, k_[:-1], k_.upper(), k_ + ' ', 'x' + k_, ESCAPES.get(k_, k_ + '.')])
                         if v_ and v_ not in cd:
                             s_[j_] = v_
             ctx.count('words:near_misses_of_keys')
